@@ -9,6 +9,7 @@ SCALAR_FILL = {
     'i64': 'int64(vrt.U64(%s))',
     'double': 'math.Float64frombits(vrt.U64(%s))',
     'enum': 'VEnum(int64(int32(vrt.U32(%s))))',
+    'i64n': 'VEnum(int64(vrt.U64(%s)))',
 }
 SCALAR_REF = {
     'bool': 'rBool(%s)',
@@ -18,6 +19,7 @@ SCALAR_REF = {
     'i64': 'rI(int64(%s))',
     'double': 'rU(math.Float64bits(%s))',
     'enum': 'rI(int64(%s))',
+    'i64n': 'rI(int64(%s))',
     'string': 'rStr(%s)',
     'binary': 'rBin(%s)',
 }
